@@ -194,12 +194,14 @@ func (h *History) OpStrings() []string {
 
 // GenConfig controls the history generator.
 type GenConfig struct {
-	Versions   int  // number of versions to create
-	MaxLag     int  // prune lag k: 1..MaxLag
-	Restore    bool // include a checkpoint restore (C07)
-	BadgerOnly bool // allow same-version child chains
-	Probes     bool // include failing metadata probes
-	Small      bool // fewer candidates / pairs (C07: keeps the case count down)
+	Versions int  // number of versions to create
+	MaxLag   int  // prune lag k: 1..MaxLag
+	Restore  bool // include a checkpoint restore (C07)
+	// RestoreNoAbort: the restore is never aborted and restarted (C06 restore share).
+	RestoreNoAbort bool
+	BadgerOnly     bool // allow same-version child chains
+	Probes         bool // include failing metadata probes
+	Small          bool // fewer candidates / pairs (C07: keeps the case count down)
 	// Restart closes and reopens the (on-disk) database after most versions, so that the LSM
 	// tree consists of several tables, keeps the prune lag >= 2 (version v+2 is finalized when
 	// v is pruned) and calls NodeDB.Compact() after prunes: what the storage engine may
@@ -535,7 +537,7 @@ func Generate(rng *rand.Rand, cfg GenConfig) *History {
 			// driver expands chunk ops: Chunk = -1 means "all remaining chunks",
 			// Chunk = -2 "the first chunk only".
 			h.Ops = append(h.Ops, Op{Kind: KMPStart, Ver: rv, CP: cp})
-			if rng.IntN(2) == 0 {
+			if rng.IntN(2) == 0 && !cfg.RestoreNoAbort {
 				h.Ops = append(h.Ops, Op{Kind: KMPChunk, Ver: rv, CP: cp, Chunk: -2})
 				h.Ops = append(h.Ops, Op{Kind: KMPAbort, Ver: rv, CP: cp})
 				h.Ops = append(h.Ops, Op{Kind: KMPStart, Ver: rv, CP: cp})
